@@ -156,10 +156,10 @@ func hasTag(tags []string, t string) bool {
 	return false
 }
 
-func (c03) Run(c fw.Case) fw.Result {
+func (c03) Run(c fw.Case) (res fw.Result) {
 	var p Payload
 	fw.Decode(c, &p)
-	res := fw.Result{Verdict: fw.Held, Obs: map[string]int64{}}
+	res = fw.Result{Verdict: fw.Held, Obs: map[string]int64{}}
 	cover := map[string]bool{"group:" + p.Group: true}
 	defer func() {
 		for k := range cover {
